@@ -261,6 +261,10 @@ def check_property(pid, tier, base_seed, out=sys.stdout, write_evidence=True, ex
         g1 = simrun(bdir, b, ['--replay', rp])[1]; g2 = simrun(bdir, b, ['--replay', rp])[1]
         shutil.rmtree(tmpd, ignore_errors=True)
         if oracle == 'hang' and g1.get('oracle') == 'hang' and g2.get('oracle') == 'hang': pass    # a hang has no final state to hash: both replays must hang
+        elif oracle == 'hang' and g1.get('status') == 'ok' and g2.get('status') == 'ok':
+            # the wall-clock watchdog fired on a run that completes when replayed (twice): the machine was overloaded, the run was not stuck
+            out.write('note: %d run(s) of %s (build %s) hit the wall-clock limit under load and complete on replay; not counted\n' % (len(vs), fam, b))
+            continue
         elif not (g1.get('oracle') == oracle and g2.get('oracle') == oracle and g1.get('event_hash') == r.get('event_hash') == g2.get('event_hash')):
             out.write('MACHINERY-ERROR property=%s violation class %s (family %s build %s seed %d) does not replay identically: %s/%s vs %s\n' % (pid, oracle, fam, b, sd, g1.get('oracle'), g1.get('event_hash'), r.get('event_hash')))
             exit_code = max(exit_code, 2); continue
